@@ -15,6 +15,7 @@ pub mod c11;
 pub mod c12;
 pub mod c13;
 pub mod c14;
+pub mod c14_cdn;
 pub mod c15;
 pub mod c16;
 pub mod c17;
